@@ -59,6 +59,9 @@ class Run(typing.NamedTuple):
     servertype: str
     tls: bool
     detach: bool = False            # detach = yes: the launcher forks and exits, the daemon child goes on
+    ident: str = "plain"            # "plain": started 0/0/0, switching to nobody/nogroup; "target-root": setuid/setgid name
+                                    # root while the process starts with gid 4242; "real-is-target": started with the real
+                                    # ids already those of the target (a set-uid launcher), effective and saved ids 0
 
     @property
     def combo(self) -> str:
@@ -67,11 +70,11 @@ class Run(typing.NamedTuple):
 
     def sig(self) -> tuple:
         return (self.combo, self.fault or "-", self.servertype, "tls" if self.tls else "plain") + \
-            (("detached",) if self.detach else ())
+            (("detached",) if self.detach else ()) + ((self.ident,) if self.ident != "plain" else ())
 
     def as_dict(self) -> dict:
         return {"combo": self.combo, "fault": self.fault, "servertype": self.servertype,
-                "tls": self.tls, "detach": self.detach}
+                "tls": self.tls, "detach": self.detach, "ident": self.ident}
 
 
 def expected_calls(r: Run) -> typing.List[str]:
@@ -117,7 +120,16 @@ def plan(tier: str) -> typing.List[Run]:
         runs.append(Run(True, True, True, "unknown-usechroot-value", st, tls))
     # the same start-up as a daemon (detach = yes): every combination; faults on the full combination
     # (quick) or on every combination (thorough)
+    # other identities: the configured names mean root (id 0 is a value, not "unset"); the process starts with
+    # its real ids already those of the target
     for r in list(runs):
+        if r.fault is None and not r.detach and (r.uid or r.gid) and r.servertype == "ThreadingTCPServer" and r.tls:
+            runs.append(r._replace(ident="target-root"))
+            if r.uid and r.gid:
+                runs.append(r._replace(ident="real-is-target"))
+    for r in list(runs):
+        if r.ident != "plain":
+            continue
         if r.fault is None or (r.fault and not r.fault.startswith("unknown-") and r.fault != "chdir"
                                and (tier == "thorough" or (r.chroot and r.uid and r.gid))):
             runs.append(r._replace(detach=True))
@@ -365,10 +377,18 @@ def execute(env: Env, r: Run, tag: str, token: str, kind: str = "unrelated") -> 
         over["detach"] = ("yes", "on", "true", "1")[sum(map(ord, tag)) % 4]
     if r.fault == "unknown-usechroot-value":
         over["usechroot"] = ("enabled", "y", "si")[sum(map(ord, tag)) % 3]
+    tuser, tgroup = ("root", "root") if r.ident == "target-root" else (USER, GROUP)
     if r.uid:
-        over["setuid"] = "nosuchuser_vf" if r.fault == "unknown-user" else USER
+        over["setuid"] = "nosuchuser_vf" if r.fault == "unknown-user" else tuser
     if r.gid:
-        over["setgid"] = "nosuchgroup_vf" if r.fault == "unknown-group" else GROUP
+        over["setgid"] = "nosuchgroup_vf" if r.fault == "unknown-group" else tgroup
+    pk: typing.Dict[str, typing.Any] = {"extra_groups": env.start_groups}
+    if r.ident == "target-root":
+        pk["group"] = 4242
+    elif r.ident == "real-is-target":
+        tu, tg = env.uid, env.gid
+
+        launcher = "import os\nos.setregid(%d, 0)\nos.setreuid(%d, 0)" % (tg, tu)
     inject = None
     if r.fault and not r.fault.startswith("unknown-"):
         inject = "%s:error=EPERM:when=1" % r.fault
@@ -386,7 +406,10 @@ def execute(env: Env, r: Run, tag: str, token: str, kind: str = "unrelated") -> 
     sp = spdriver.ServerProcess(over, root=root, servertype=r.servertype, tls=r.tls,
                                 strace_expr=TRACE_EXPR, inject=inject, cwd=start_cwd,
                                 workdir=wd, name="srv",
-                                popen_kwargs={"extra_groups": env.start_groups})
+                                popen_kwargs=pk)
+    if r.ident == "real-is-target":
+        # real ids = the target's, effective and saved ids stay 0 (what a set-uid-root launcher leaves)
+        sp.launcher_code = launcher
     try:
         sp.start()
         if r.fault is None:
@@ -470,6 +493,10 @@ def execute(env: Env, r: Run, tag: str, token: str, kind: str = "unrelated") -> 
                 lineage.append(daemon)
                 o.exited = None
         o.events, o.listen_fd = startup_events(trace, lineage, sp.port, env.cert, env.key)
+        if r.ident == "real-is-target":
+            # the launcher's own two calls (setregid(t, 0), setreuid(t, 0)) come before the server exists
+            mine = [i for i, e in enumerate(o.events[:4]) if e.kind in ("gid", "uid")][:2]
+            o.events = [e for i, e in enumerate(o.events) if i not in mine]
         for s in trace:
             if s.pid == lineage[-1] and s.name == "+++exit" and o.exited is None:
                 o.exited = int(s.args)
@@ -528,8 +555,9 @@ def judge(env: Env, r: Run, o: Obs, token: str) -> typing.Tuple[
         if o.status is None:
             return wit, inc
         # (5)/(3) credentials: all four ids, supplementary groups
-        exp_uid = [str(env.uid)] * 4 if r.uid else env.my_uid
-        exp_gid = [str(env.gid)] * 4 if r.gid else env.my_gid
+        tuid, tgid = (0, 0) if r.ident == "target-root" else (env.uid, env.gid)
+        exp_uid = [str(tuid)] * 4 if r.uid else env.my_uid
+        exp_gid = [str(tgid)] * 4 if r.gid else (["4242"] * 4 if r.ident == "target-root" else env.my_gid)
         if o.status.get("Uid") != exp_uid:
             add("C19/end-state-uid", expected=exp_uid, observed=o.status.get("Uid"),
                 why="real/effective/saved/fs uid of the serving process")
@@ -810,11 +838,11 @@ def main() -> int:
         for w in chk.replay_case.get("witnesses", []):
             d = w.get("run") if isinstance(w, dict) else None
             if d:
-                wanted.append((d["combo"], d["fault"], d["servertype"], d["tls"], d.get("detach", False)))
+                wanted.append((d["combo"], d["fault"], d["servertype"], d["tls"], d.get("detach", False), d.get("ident", "plain")))
         if wanted:
-            runs = [r for r in runs if (r.combo, r.fault, r.servertype, r.tls, r.detach) in wanted] or runs
+            runs = [r for r in runs if (r.combo, r.fault, r.servertype, r.tls, r.detach, r.ident) in wanted] or runs
     if mode != "strace":
-        runs = [r for r in runs if not r.detach]
+        runs = [r for r in runs if not r.detach and r.ident == "plain"]
     chk.rng.shuffle(runs)
     sample_traces: typing.List[dict] = []
     exit_codes: typing.Dict[str, int] = {}
